@@ -1,7 +1,7 @@
 """Generic check pipeline (DESIGN.md 1.1): obligations -> correspondence -> oracle -> verdict."""
 import sys, os, json, re, subprocess, time, fcntl, shutil, argparse, hashlib
 
-REPO = "/repo"
+REPO = os.environ.get("VERIF_REPO", "/repo")
 GOENV = {"GOFLAGS": "-mod=mod", "GOPROXY": "off", "GOSUMDB": "off", "GOTOOLCHAIN": "local",
          "CGO_ENABLED": "1"}
 ALLOWED_AXIOMS = {"propext", "Classical.choice", "Quot.sound"}
@@ -389,11 +389,20 @@ def write_replay(root, pid, kind, body):
     return p
 
 
+def load_registry(root):
+    reg = {}
+    d = os.path.join(root, "checks.d")
+    for f in sorted(os.listdir(d)):
+        if f.endswith(".json"):
+            reg[f[:-5]] = json.load(open(os.path.join(d, f)))
+    return reg
+
+
 def setup(root):
     """MANIFEST.setup_cmd: build every Lean module and the driver, the translator, and warm the
     Go build cache by compiling every harness once against the current tree."""
     os.makedirs(os.path.join(root, "build"), exist_ok=True)
-    registry = json.load(open(os.path.join(root, "checks.json")))
+    registry = load_registry(root)
     lean_dir = os.path.join(root, "lean")
     for pid, cfg in registry.items():
         gen = os.path.join(lean_dir, "KV", "Gen", pid + ".lean")
@@ -439,7 +448,7 @@ def main(root, argv):
         return setup(root)
     os.makedirs(os.path.join(root, "build", pid), exist_ok=True)
     os.makedirs(os.path.join(root, "evidence"), exist_ok=True)
-    registry = json.load(open(os.path.join(root, "checks.json")))
+    registry = load_registry(root)
     if pid not in registry:
         log(f"unknown property {pid}")
         return 2
